@@ -123,6 +123,15 @@ fn gen(rng: &mut Rng, _idx: u64, _tier: Tier) -> Case {
             }
         }
     }
+    // now and then a session turns to noise: some frames, then a long run of malformed lines, then it drops
+    if rng.chance(0.08) {
+        let n = rng.range(0, 3) as usize;
+        let t = gen::traffic(rng, &mut acs[..n_ac], n, d, kinds, false, true, 1_000_000);
+        let mut ops = gen::ops_of(rng, t, Chunking::Line);
+        noise_run(rng, &mut ops);
+        if rng.chance(0.5) { end_badly(rng, &mut ops, &mut acs); } else { ops.push(Op::Eof { dt_us: 0 }); }
+        conns.push(Conn::Accept { ops });
+    }
     // very rarely: hundreds of short sessions in one run (session counters, per-session state)
     if rng.chance(0.004) {
         for _ in 0..rng.range(257, 330) {
@@ -152,11 +161,37 @@ fn gen(rng: &mut Rng, _idx: u64, _tier: Tier) -> Case {
     let c1 = chunk(rng);
     let mut ops = gen::ops_of(rng, t1, c1);
     if rng.chance(0.2) { let at = rng.below(ops.len() as u64 + 1) as usize; ops.insert(at, Op::Err { dt_us: 0, kind: "Interrupted".into() }); }
+    // the healthy connection may open with a malformed line (the tail of a line whose head went to nobody), and
+    // may carry a long run of malformed lines between its frames
+    if rng.chance(0.25) {
+        let k = *rng.pick(&["hex13", "hex15", "hex27", "text", "blank", "truncated-frame", "at-cut", "semicolon-only"]);
+        ops.insert(0, Op::Data { dt_us: 0, bytes: Bytes(gen::junk(rng, k)), tag: format!("junk:junk-{}", k) });
+    }
+    if rng.chance(0.05) {
+        let at = rng.below(ops.len() as u64 + 1) as usize;
+        let mut run = vec![];
+        noise_run(rng, &mut run);
+        for (i, o) in run.into_iter().enumerate() { ops.insert(at + i, o); }
+    }
     conns.push(Conn::Accept { ops });
     let mut script = Script::file(args, vec![]);
     script.tcp = true;
     script.conns = conns;
     Case { property: "C18".into(), mode: String::new(), script, args_b: None, log_level_b: None, meta: serde_json::Value::Null }
+}
+
+/// 30-90 short malformed lines in a row (one read each, or several per read).
+fn noise_run(rng: &mut Rng, ops: &mut Vec<Op>) {
+    let n = *rng.pick(&[30i64, 31, 32, 33, 40, 64, 65, 90]);
+    let per_read = rng.range(1, 8) as usize;
+    let mut buf: Vec<u8> = vec![];
+    for i in 0..n as usize {
+        let k = *rng.pick(&["hex13", "hex15", "hex27", "hex29", "text", "blank", "empty", "truncated-frame", "at-cut", "at-short", "semicolon-only", "hex-odd"]);
+        buf.extend(gen::junk(rng, k));
+        if (i + 1) % per_read == 0 || i + 1 == n as usize {
+            ops.push(Op::Data { dt_us: rng.range(0, 20_000), bytes: Bytes(std::mem::take(&mut buf)), tag: "junk:junk-noise-run".into() });
+        }
+    }
 }
 
 /// Ends a connection the bad way: partial line then reset / close / timeout.
